@@ -1,9 +1,12 @@
 //! C20 — A cloned or taken OwningIovec is an independent snapshot.
+use owning_iovec::OwningIovec;
+use proptest::prelude::*;
+use serde::{Deserialize, Serialize};
 use serde_json::Value;
 
 use super::iovec_sm::{self, History, Mix, Profile};
 use super::{parse_case, PropDef};
-use crate::engine::{self, CaseResult, Ctx, Outcome, Report, Tier};
+use crate::engine::{self, CaseResult, Ctx, Fail, Outcome, Report, Tier};
 
 const PROFILE: Profile = Profile {
     check_pipe: true,
@@ -21,21 +24,202 @@ pub fn check_case(h: &History) -> CaseResult {
         .label_if(st.out_of_order_fills > 0, "out_of_order_fill"))
 }
 
+/// The original takes back, *borrowed*, the bytes its own snapshot holds (safe code: the
+/// snapshot is merely kept alive and untouched), then goes on: clear, copies, placeholders,
+/// consumption.  The borrowed slices alias memory of the original's own arena.
+#[derive(Clone, Debug, PartialEq, Eq, Hash, Serialize, Deserialize)]
+pub struct LendCase {
+    /// (copy / borrowed from the caller's pool, offset seed, length) pushed before the clone.
+    pub before: Vec<(bool, u32, u16)>,
+    /// How much of the original is consumed after the clone (0..=255 of its bytes; 255 = all).
+    pub consume: u8,
+    /// `extend` with the snapshot's slices (otherwise one `push_borrowed` per slice).
+    pub via_extend: bool,
+    /// Only the snapshot's last `keep_last` slices are lent when not zero.
+    pub keep_last: u8,
+    pub after: Vec<LendOp>,
+    pub drop_original_first: bool,
+}
+
+#[derive(Clone, Copy, Debug, PartialEq, Eq, Hash, Serialize, Deserialize)]
+pub enum LendOp {
+    Clear,
+    PushCopy(u32, u16),
+    PushBorrowed(u32, u16),
+    ConsumeSlices(u8),
+    Advance(u16),
+    Patch(u8),
+    Flush,
+    Ensure(u16),
+}
+
+fn pool() -> &'static [u8] {
+    use std::sync::OnceLock;
+    static POOL: OnceLock<Vec<u8>> = OnceLock::new();
+    POOL.get_or_init(|| (0..70_000u32).map(|i| (i.wrapping_mul(2654435761) >> 13) as u8 | 0x80).collect())
+}
+
+fn pool_slice(off: u32, len: u16) -> &'static [u8] {
+    let p = pool();
+    let len = len as usize;
+    let off = off as usize % (p.len() - len);
+    &p[off..off + len]
+}
+
+pub fn check_lend(case: &LendCase) -> CaseResult {
+    iovec_sm::with_quarantine(|| check_lend_inner(case))
+}
+
+fn check_lend_inner(case: &LendCase) -> CaseResult {
+    let mut original: OwningIovec<'_> = OwningIovec::new();
+    let mut model: Vec<u8> = vec![];
+    for (copy, off, len) in &case.before {
+        let b = pool_slice(*off, *len);
+        if *copy {
+            original.push_copy(b);
+        } else {
+            original.push_borrowed(b);
+        }
+        model.extend_from_slice(b);
+    }
+    let snapshot = original.clone();
+    let frozen = model.clone();
+    let check = |what: &str, original: &OwningIovec<'_>, model: &[u8]| -> Result<(), Fail> {
+        let s = snapshot.flatten().map_err(|_| Fail::new("lend:snapshot-pending", format!("after {what}: the snapshot reports a pending placeholder")))?;
+        if s != frozen || snapshot.total_size() != frozen.len() {
+            return Err(Fail::new("lend:snapshot-changed", super::codec::mismatch(&format!("after {what} on the original, the untouched snapshot changed"), &s, &frozen)));
+        }
+        if let Ok(o) = original.flatten() {
+            if o != model {
+                return Err(Fail::new("lend:original-content", super::codec::mismatch(&format!("after {what}, the original's contents"), &o, model)));
+            }
+        }
+        if original.total_size() != model.len() {
+            return Err(Fail::new("lend:original-size", format!("after {what}: total_size {} for {} bytes", original.total_size(), model.len())));
+        }
+        Ok(())
+    };
+    check("clone", &original, &model)?;
+    // Consume part or all of the original.
+    let n = if case.consume == 255 { model.len() } else { model.len() * case.consume as usize / 255 };
+    let done = original.consumer().advance_slices(n);
+    model.drain(..done);
+    check("consuming", &original, &model)?;
+    // The snapshot's bytes are queued again, borrowed.
+    let lent = snapshot.iovs().map_err(|_| Fail::new("lend:snapshot-pending", "the snapshot reports a pending placeholder".to_string()))?;
+    let from = if case.keep_last == 0 { 0 } else { lent.len().saturating_sub(case.keep_last as usize) };
+    let lent = &lent[from..];
+    if case.via_extend {
+        original.extend(lent.iter().copied());
+    } else {
+        for s in lent {
+            original.push_borrowed(s);
+        }
+    }
+    for s in lent {
+        model.extend_from_slice(s);
+    }
+    check("taking the snapshot's slices back", &original, &model)?;
+    let mut cleared_after_lend = false;
+    for op in &case.after {
+        match *op {
+            LendOp::Clear => {
+                original.clear();
+                model.clear();
+                cleared_after_lend = true;
+            }
+            LendOp::PushCopy(off, len) => {
+                let b = pool_slice(off, len);
+                original.push_copy(b);
+                model.extend_from_slice(b);
+            }
+            LendOp::PushBorrowed(off, len) => {
+                let b = pool_slice(off, len);
+                original.push_borrowed(b);
+                model.extend_from_slice(b);
+            }
+            LendOp::ConsumeSlices(k) => {
+                let k = (k as usize).min(original.consumer().stable_prefix().len());
+                let bytes: usize = original.consumer().stable_prefix()[..k].iter().map(|s| s.len()).sum();
+                original.consumer().consume(k);
+                model.drain(..bytes);
+            }
+            LendOp::Advance(n) => {
+                let done = original.consumer().advance_slices(n as usize);
+                model.drain(..done);
+            }
+            LendOp::Patch(len) => {
+                let len = 1 + (len % 8) as usize;
+                let r = original.register_patch(&vec![0u8; len]);
+                let fill: Vec<u8> = (0..len).map(|i| 0xC0 + i as u8).collect();
+                original.backfill_or_panic(r, &fill);
+                model.extend_from_slice(&fill);
+            }
+            LendOp::Flush => original.arena().flush_cache(),
+            LendOp::Ensure(n) => original.arena().ensure_capacity(n as usize),
+        }
+        check(&format!("{op:?}"), &original, &model)?;
+    }
+    if case.drop_original_first {
+        drop(original);
+        let s = snapshot.flatten().map_err(|_| Fail::new("lend:snapshot-pending", "pending placeholder in the snapshot".to_string()))?;
+        if s != frozen {
+            return Err(Fail::new("lend:snapshot-changed", super::codec::mismatch("after dropping the original, the snapshot changed", &s, &frozen)));
+        }
+    }
+    Ok(Outcome::new(cleared_after_lend && !frozen.is_empty()).label_if(cleared_after_lend, "clear_after_taking_back").label_if(case.consume == 255, "original_fully_consumed"))
+}
+
+fn lend_case() -> impl Strategy<Value = LendCase> {
+    let size = || prop_oneof![4 => 1u16..12, 2 => 60u16..70, 2 => 250u16..262, 1 => 4000u16..4200, 1 => Just(0u16)];
+    let op = prop_oneof![
+        3 => Just(LendOp::Clear),
+        5 => (any::<u32>(), size()).prop_map(|(o, l)| LendOp::PushCopy(o, l)),
+        2 => (any::<u32>(), size()).prop_map(|(o, l)| LendOp::PushBorrowed(o, l)),
+        2 => (0u8..4).prop_map(LendOp::ConsumeSlices),
+        2 => prop_oneof![0u16..20, 0u16..5000].prop_map(LendOp::Advance),
+        2 => any::<u8>().prop_map(LendOp::Patch),
+        1 => Just(LendOp::Flush),
+        1 => prop_oneof![1u16..300, 4000u16..9000].prop_map(LendOp::Ensure),
+    ];
+    (
+        proptest::collection::vec((prop_oneof![3 => Just(true), 1 => Just(false)], any::<u32>(), size()), 1..6),
+        prop_oneof![3 => Just(255u8), 1 => Just(0u8), 2 => any::<u8>()],
+        any::<bool>(),
+        prop_oneof![2 => Just(0u8), 1 => 1u8..3],
+        proptest::collection::vec(op, 1..10),
+        any::<bool>(),
+    )
+        .prop_map(|(before, consume, via_extend, keep_last, after, drop_original_first)| LendCase {
+            before,
+            consume,
+            via_extend,
+            keep_last,
+            after,
+            drop_original_first,
+        })
+}
+
 pub fn run(ctx: &Ctx, rep: &mut Report) {
+    let cases = ctx.share(ctx.tier.pick(40_000, 1_000_000));
+    engine::drive(ctx, rep, "snapshot-lends-back", lend_case(), cases, check_lend);
     let cases = ctx.share(ctx.tier.pick(120_000, 1_200_000));
     engine::drive(ctx, rep, "split-histories", iovec_sm::history(Mix::Split, 60), cases, check_case);
     let cases = ctx.share(ctx.tier.pick(30_000, 300_000));
     engine::drive(ctx, rep, "memory-histories", iovec_sm::history(Mix::Memory, 60), cases, check_case);
 }
 
-fn replay(_ctx: &Ctx, _group: &str, case: &Value) -> CaseResult {
+fn replay(_ctx: &Ctx, group: &str, case: &Value) -> CaseResult {
+    if group == "snapshot-lends-back" {
+        return check_lend(&parse_case::<LendCase>(case)?);
+    }
     check_case(&parse_case::<History>(case)?)
 }
 
 pub fn def() -> PropDef {
     PropDef {
         id: "C20",
-        rule: "split-histories: a generated prefix of operations on one OwningIovec, then clone() (after filling outstanding placeholders; skipped if one is still pending, as the property requires) or take() (with or without pending placeholders, whose tokens follow the taken value in the model), then a generated suffix whose operations are spread over both sides, optionally dropping one side part-way. Each side has its own pipe model and both are compared with their models after every operation (so a write through one side that shows up in the other is a mismatch), with the live-chunk registry and quarantine on (a side that frees memory the other still exposes is caught by address and by poison); the source of a take() must be empty (total_size 0, iovs() Ok(empty)) and stays usable; backfills on the taken value must land at the right offsets. memory-histories adds clone/take/drop-heavy general histories. Non-trivial: both sides received >= 1 mutating operation after the split, at least one of which merged slices or backfilled. Distinct: hash of the serialised history.",
+        rule: "split-histories: a generated prefix of operations on one OwningIovec, then clone() (after filling outstanding placeholders; skipped if one is still pending, as the property requires) or take() (with or without pending placeholders, whose tokens follow the taken value in the model), then a generated suffix whose operations are spread over both sides, optionally dropping one side part-way. Each side has its own pipe model and both are compared with their models after every operation (so a write through one side that shows up in the other is a mismatch), with the live-chunk registry and quarantine on (a side that frees memory the other still exposes is caught by address and by poison); the source of a take() must be empty (total_size 0, iovs() Ok(empty)) and stays usable; backfills on the taken value must land at the right offsets. memory-histories adds clone/take/drop-heavy general histories. snapshot-lends-back: pushes, clone, the original consumes some or all of its bytes and then takes the untouched snapshot's slices back *borrowed* (extend / push_borrowed of snapshot.iovs(): safe code, the slices alias the original's own arena), then clear / copies / placeholders / consumption / arena flushes on the original; after every step the snapshot still reads what it held at the clone and the original reads its model, also after the original is dropped. Non-trivial: both sides received >= 1 mutating operation after the split, at least one of which merged slices or backfilled. Distinct: hash of the serialised history.",
         assumptions: &["as C03", "hook: owning_iovec/verif-hooks (chunk registry, quarantine)"],
         exhaustive_note: None,
         shards: |_t: Tier| 16,
